@@ -22,7 +22,7 @@ def typeExpr (ds : Decls) : Expr → Except String Ty
   | .num _ => .ok .number
   | .str _ => .ok .string
   | .portion t =>
-    match parsePortionSpecific t with
+    match parsePortionGo t with
     | .ok _ => .ok .portion
     | .error msg => .error msg
   | .mon a _ =>
@@ -94,7 +94,7 @@ structure AllotAcc where
 
 def checkPortion (ds : Decls) (acc : AllotAcc) : PortionE → Except String AllotAcc
   | .lit t =>
-    match parsePortionSpecific t with
+    match parsePortionGo t with
     | .ok (.specific r) => .ok { acc with total := r + acc.total }
     | .ok .remaining => .ok acc
     | .error msg => .error msg
